@@ -938,7 +938,29 @@ fn state_for(ns: usize, v: &[Trans]) -> Option<State> {
     for _ in 1..ns {
         states.push(State::new(enum_map! { _ => vec![] }));
     }
-    Machine::new(0, 0.0, 0, 0.0, states).ok().map(|_| st)
+    Machine::new(0, 0.0, 0, 0.0, states).ok()?;
+    // hand out the state through the different copy paths in rotation: a copy must carry exactly
+    // the declared lists (a stale list on another event would show in the `novec` observation)
+    static ROT: std::sync::atomic::AtomicUsize = std::sync::atomic::AtomicUsize::new(0);
+    let decoy = || {
+        let mut t = enum_map! { _ => vec![Trans(0, 1.0)] };
+        t[Event::NormalSent] = vec![Trans(0, 0.5)];
+        State::new(t)
+    };
+    Some(match ROT.fetch_add(1, std::sync::atomic::Ordering::Relaxed) % 4 {
+        0 => st,
+        1 => st.clone(),
+        2 => {
+            let mut d = decoy();
+            d.clone_from(&st);
+            d
+        }
+        _ => {
+            let mut dv = vec![decoy(), decoy()];
+            dv.clone_from(&vec![st]);
+            dv.pop().unwrap()
+        }
+    })
 }
 
 fn draw_once(st: &State, ev: Event, word: u32) -> (Option<u32>, Option<usize>, u32, u32) {
